@@ -191,10 +191,10 @@ Definition exU2 : UserQP :=
 Definition exS_cost : Settings := default_settings <| preconditioner_scale_cost := true |>.
 
 Definition ex_setup_dp : option (Data * Precond) :=
-  match setup consts false (q 0 1) exS_cost 2 1 1 exB with Ok sv => Some (sv_data sv, sv_pc sv) | Err _ => None end.
+  match setup consts false false (q 0 1) exS_cost 2 1 1 exB with Ok sv => Some (sv_data sv, sv_pc sv) | Err _ => None end.
 Definition exd2 : Data := Eval vm_compute in (match ex_setup_dp with Some (d, _) => d | None => exd end).
 Definition expc2 : Precond := Eval vm_compute in (match ex_setup_dp with Some (_, pc) => pc | None => expc end).
-Lemma ex_setup_link : forall sv, setup consts false (q 0 1) exS_cost 2 1 1 exB = Ok sv -> sv_data sv = exd2 /\ sv_pc sv = expc2.
+Lemma ex_setup_link : forall sv, setup consts false false (q 0 1) exS_cost 2 1 1 exB = Ok sv -> sv_data sv = exd2 /\ sv_pc sv = expc2.
 Proof. intros sv H. vm_compute in H. injection H as <-. split; vm_compute; reflexivity. Qed.
 Lemma ex_scaled_problem2 : scaled_problem exU2 exd2 expc2.
 Proof.
@@ -230,14 +230,14 @@ Proof.
   - intros i j H1 H2. cbn in H2. destruct i as [|[|i]], j as [|[|j]]; try lia; qc_eq.
 Qed.
 Lemma ex_setup_scaled_problem_proof :
-  forall sv, setup consts false (q 0 1) exS_cost 2 1 1 exB = Ok sv ->
+  forall sv, setup consts false false (q 0 1) exS_cost 2 1 1 exB = Ok sv ->
   scaled_problem exU2 (sv_data sv) (sv_pc sv) /\
   negb (qeqb (pc_c (sv_pc sv)) 1) && negb (qeqb (el (pc_delta (sv_pc sv)) 0) 1) && negb (qeqb (el (pc_delta_lb (sv_pc sv)) 0) 1) = true.
 Proof.
   intros sv H. destruct (ex_setup_link sv H) as [-> ->]. split; [apply ex_scaled_problem2 | vm_compute; reflexivity].
 Qed.
-Lemma ex_setup_ok_proof : exists sv, setup consts false (q 0 1) exS_cost 2 1 1 exB = Ok sv.
+Lemma ex_setup_ok_proof : exists sv, setup consts false false (q 0 1) exS_cost 2 1 1 exB = Ok sv.
 Proof.
-  destruct (setup consts false (q 0 1) exS_cost 2 1 1 exB) as [sv|e] eqn:E; [exists sv; reflexivity|].
+  destruct (setup consts false false (q 0 1) exS_cost 2 1 1 exB) as [sv|e] eqn:E; [exists sv; reflexivity|].
   exfalso. revert E. vm_compute. discriminate.
 Qed.
